@@ -208,7 +208,10 @@ let verdict_blob comp len impl =
       | None -> if size_outcome len = Ok p then "ok" else "diff model=" ^ ms (size_outcome len)
       | Some Lz4 ->
         (match size_outcome len, size_outcome p with
-         | Ok _, Ok _ -> "ok" | a, _ -> "diff model=" ^ ms a)
+         | Ok _, Ok _ -> "ok"
+         (* C09_oversize: a body of 2^32 bytes or more must be refused with LZ4 (its size prefix has 32 bits) *)
+         | Err _, _ -> "viol oversize-body-accepted-with-lz4 model=" ^ ms (size_outcome len)
+         | a, _ -> "diff model=" ^ ms a)
       | Some Snappy -> if size_outcome p = Ok p then "ok" else "diff model=" ^ ms (size_outcome p)
     end
   | ["err"; "body-too-long"; b] ->
